@@ -126,6 +126,7 @@ func encNames(names []nameRef) string {
 }
 
 var c06Seeds = []string{
+	"package x\n\ntempl  Hello(name  string)  {\n\t<p>{ name }</p>\n}\n\ncss  red()  {\n\tcolor: red;\n}\n\nscript  sc(a string)  {\n\tconsole.log(a);\n}\n\ntempl (p  P)  M() {\n\t@Hello(\"x\")\n}\n",
 	"package x\n\ntempl T(s string) {\n\t<p>é日本 { s } 😀{ s }</p>\n}\n",
 	"package x\r\n\r\ntempl T(s string) {\r\n\t<div class={ \"a\",\r\n\t\ts }>x</div>\r\n}\r\n",
 	"// header é\npackage x\n\nimport \"fmt\"\n\nvar a = `é`\n\ntempl (p P) T(items []string) {\n\tfor _, i := range items {\n\t\t{ fmt.Sprint(\n\t\t\ti) }\n\t}\n}\n",
@@ -192,7 +193,8 @@ func runC06(e *emitter, tier string, seed uint64) {
 	}
 	// truncations and structure-aware mutations
 	tokens := []string{"{", "}", "{{", "}}", "<", ">", "</", "/>", "\"", "'", "`", "@", "if ", "else", "for ", "switch ", "case ", "templ ", "css ", "script ", "<!--", "-->", "//", "/*", "*/",
-		"é", "日本", "\r\n", "\n", "\t", "{ children... }", "{!", "...", "=", "?=", "\xff", "\x00", "(", ")", "<script>", "</script>", "<style>", "func", "package ", "import \""}
+		"é", "日本", "\r\n", "\n", "\t", "{ children... }", "{!", "...", "=", "?=", "\xff", "\x00", "(", ")", "<script>", "</script>", "<style>", "func", "package ", "import \"",
+		"@func", "@func()", "@f(func(int) string(nil))", "@a.b(func() {})", "templ  X() {\n}\n", "css  c() {\n}\n", "script  s() {\n}\n", "templ\tY(a  string)  {\n}\n", "@x.y(", "{ f(", "{{ a :=", "`", "'\\''"}
 	nm := 4000
 	if tier == "thorough" {
 		nm = 200000
@@ -203,7 +205,7 @@ func runC06(e *emitter, tier string, seed uint64) {
 			continue
 		}
 		b := []byte(s)
-		switch r.intn(6) {
+		switch r.intn(7) {
 		case 0: // truncation
 			b = b[:r.intn(len(b)+1)]
 		case 1: // token insertion
@@ -225,6 +227,8 @@ func runC06(e *emitter, tier string, seed uint64) {
 			b = append(b[:q:q], append(append([]byte{}, b[p:q]...), b[q:]...)...)
 		case 4: // byte flip
 			b[r.intn(len(b))] = byte(r.intn(256))
+		case 5: // truncate, then end the file with a token
+			b = append(b[:r.intn(len(b)+1)], []byte(r.pick(tokens))...)
 		default: // several token insertions
 			for k := 0; k < 3; k++ {
 				p := r.intn(len(b) + 1)
